@@ -9,6 +9,7 @@ mod lex;
 mod term;
 mod tracker;
 mod util;
+mod valgrid;
 mod vars;
 
 fn main() {
@@ -26,6 +27,8 @@ fn main() {
         "tracker" => tracker::main(rest),
         "consume" => counted::main(rest),
         "vars" => vars::main(rest),
+        "valgrid" => valgrid::main(rest),
+        "fuzz-val" => valgrid::main_fuzz(rest),
         "tables" => fuzz::main_tables(rest),
         _ => {
             eprintln!("usage: recorder <expr> [options]");
